@@ -202,6 +202,8 @@ func c15(w *core.World, r *core.Report) {
 	ruleLeaseConfig(w, r)
 	r.Rule("R15.12", "the lease period of the Redis cluster object is written by its constructor only", 1)
 	ruleLeaseTtlFixedAtConstruction(w, r)
+	r.Rule("R15.13", "a renewal attempt reports nil only when the election answered nil", 1)
+	ruleRenewResultIsTheAnswer(w, r)
 }
 
 func luaPathsOf(r *core.Report, cons, script string, pos token.Pos) ([]*core.LuaPath, string) {
